@@ -81,8 +81,10 @@ def decode_roots(P):
     return sorted(set(roots))
 
 
-def guard_calls(ck, P):
+def guard_calls(ck, P, only=None):
     for inst, path, rx, floor, pats in GUARD_CALLS:
+        if only is not None and inst not in only:
+            continue
         fn = P.fn(path)
         if not ck.anchor("fn " + path, fn):
             continue
@@ -106,8 +108,10 @@ def guard_calls(ck, P):
                           "copy_chunk_unchecked is instantiated with %s, not with the N used in the guard" % c.gargs, where(fn, c.line))
 
 
-def loop_backedge_guard(ck, P):
+def loop_backedge_guard(ck, P, only=None):
     for path, hv in ((FAST, "BitReader::bytes_remaining_including_buffer"), (FAST_BACK, "BitReader::bytes_remaining")):
+        if only is not None and path not in only:
+            continue
         fn = P.fn(path)
         if not ck.anchor("fn " + path, fn):
             continue
